@@ -222,17 +222,39 @@ func c08Script(f []string) string {
 			fmt.Fprintf(&sb, "out+=\"L\"+(new Array(%s)).length+\"|\";", jsVal(p[1]))
 		case "call":
 			var args []string
-			if c08CallbackMethods[p[1]] {
-				args = append(args, "function(){ var s=\"\"; for (var i=0;i<arguments.length;i++){ s+=(i?\",\":\"\")+__v(arguments[i]); } log+=(log===\"\"?\"~\":\";\")+s; return rets[ci++]; }")
+			name := strings.TrimSuffix(p[1], "!")
+			if c08CallbackMethods[name] {
+				if name != p[1] {
+					args = append(args, "null")
+				} else {
+					args = append(args, "function(){ var s=\"\"; for (var i=0;i<arguments.length;i++){ s+=(i?\",\":\"\")+__v(arguments[i]); } log+=(log===\"\"?\"~\":\";\")+s; var rv=Object.prototype.hasOwnProperty.call(rets,ci)?rets[ci]:undefined; ci++; return rv; }")
+				}
 			}
 			for _, a := range splitList(p[2]) {
-				args = append(args, jsVal(a))
+				if a == "a" || strings.HasPrefix(a, "a:") {
+					var es []string
+					parts := strings.Split(a, ":")[1:]
+					for _, e := range parts {
+						if e == "_" {
+							es = append(es, "")
+						} else {
+							es = append(es, jsVal(e))
+						}
+					}
+					lit := "[" + strings.Join(es, ",")
+					if len(parts) > 0 && parts[len(parts)-1] == "_" {
+						lit += ","
+					}
+					args = append(args, lit+"]")
+				} else {
+					args = append(args, jsVal(a))
+				}
 			}
 			var rets []string
 			for _, r := range splitList(p[3]) {
 				rets = append(rets, jsVal(r))
 			}
-			fmt.Fprintf(&sb, "log=\"\"; ci=0; rets=[%s]; var r; try { r=__v(a.%s(%s)); } catch(e) { r=__err(e); } out+=r+log+\"|\";", strings.Join(rets, ","), p[1], strings.Join(args, ","))
+			fmt.Fprintf(&sb, "log=\"\"; ci=0; rets=[%s]; var r; try { r=__v(a.%s(%s)); } catch(e) { r=__err(e); } out+=r+log+\"|\";", strings.Join(rets, ","), name, strings.Join(args, ","))
 		default:
 			panic("bad step " + st)
 		}
@@ -340,6 +362,10 @@ func genC08(c *h.Ctx) {
 	for i := 0; i < c.N(30000, 1500000); i++ {
 		genHistory(c)
 	}
+	// 4. length scenarios: non-configurable elements, non-writable length, then length changes
+	for i := 0; i < c.N(6000, 300000); i++ {
+		genLengthScenario(c)
+	}
 }
 
 var c08Elems = []string{dTok(0), dTok(1), dTok(2), dTok(3), dTok(-1), dTok(math.Copysign(0, -1)), dTok(math.NaN()), dTok(10), dTok(2.5),
@@ -372,6 +398,8 @@ func genNumArg(r *h.Rng, n int) string {
 		return dTok(float64(r.Intn(2*n+5) - n - 2))
 	}
 }
+
+var c08Methods = []string{"push", "pop", "shift", "unshift", "slice", "splice", "indexOf", "lastIndexOf", "reverse", "join", "concat", "every", "some", "forEach", "map", "filter", "reduce", "reduceRight"}
 
 var c08WeirdKeys = []string{"01", "00", "+1", "-0", "+0", "-1", "1.0", "1e0", " 1", "x", "007", "+3", "4294967294", "4294967295", "4294967296", "04", "+4294967294"}
 
@@ -477,11 +505,11 @@ func genHistory(c *h.Ctx) {
 			huge = wasHuge // new Array(n) does not touch the receiver
 			keys = append(keys, "step:new")
 		default:
-			m := []string{"push", "pop", "shift", "unshift", "slice", "indexOf"}[r.Intn(6)]
+			m := c08Methods[r.Intn(len(c08Methods))]
 			if huge && m != "push" && m != "pop" {
 				continue
 			}
-			var args []string
+			var args, rets []string
 			switch m {
 			case "push", "unshift":
 				for j := r.Intn(4); j > 0; j-- {
@@ -491,16 +519,111 @@ func genHistory(c *h.Ctx) {
 				for j := r.Intn(3); j > 0; j-- {
 					args = append(args, genNumArg(r, n))
 				}
-			case "indexOf":
+			case "splice":
+				for j := r.Intn(4); j > 0; j-- {
+					args = append(args, genNumArg(r, n))
+					if len(args) == 2 {
+						for q := r.Intn(4); q > 0; q-- {
+							args = append(args, genElem(r))
+						}
+						break
+					}
+				}
+			case "indexOf", "lastIndexOf":
 				args = append(args, genElem(r))
 				if r.Chance(60) {
 					args = append(args, genNumArg(r, n))
 				}
+			case "join":
+				if r.Chance(60) {
+					args = append(args, []string{sTok("-"), sTok(""), "u", "n", dTok(1), sTok(", ")}[r.Intn(6)])
+				}
+			case "concat":
+				for j := r.Intn(3); j > 0; j-- {
+					if r.Chance(60) {
+						a := "a"
+						for q := r.Intn(4); q > 0; q-- {
+							if r.Chance(30) {
+								a += ":_"
+							} else {
+								a += ":" + genElem(r)
+							}
+						}
+						args = append(args, a)
+					} else {
+						args = append(args, genElem(r))
+					}
+				}
+			case "every", "some", "forEach", "map", "filter", "reduce", "reduceRight":
+				if (m == "reduce" || m == "reduceRight") && r.Chance(50) {
+					args = append(args, genElem(r))
+				}
+				for j := r.Intn(n + 2); j > 0; j-- {
+					rets = append(rets, genElem(r))
+				}
+				if r.Chance(4) {
+					m += "!"
+				}
 			}
-			st = "call/" + m + "/" + strings.Join(args, ",") + "/"
+			st = "call/" + m + "/" + strings.Join(args, ",") + "/" + strings.Join(rets, ",")
 			keys = append(keys, "call:"+m)
 		}
 		line += " " + st
 	}
 	c.Add(line, keys...)
+}
+
+func genLengthScenario(c *h.Ctx) {
+	r := c.Rng
+	n := 1 + r.Intn(7)
+	es := make([]string, n)
+	for i := range es {
+		if r.Chance(20) {
+			es[i] = "_"
+		} else {
+			es[i] = genElem(r)
+		}
+	}
+	line := "h a=" + strings.Join(es, ",") + " p="
+	tri := func() string { return []string{"1", "0", "-"}[r.Intn(3)] }
+	for j := r.Intn(3); j > 0; j-- {
+		line += fmt.Sprintf(" def/%s/%s/%s/%s/0", kTok(strconv.Itoa(r.Intn(n+1))), genElem(r), tri(), tri())
+	}
+	switch r.Intn(5) {
+	case 0:
+		line += " frz"
+	case 1:
+		line += " seal"
+	case 2:
+		line += " def/" + kTok("length") + "/-/0/-/-"
+	case 3:
+		line += " noext"
+	}
+	for j := 1 + r.Intn(3); j > 0; j-- {
+		lv := dTok(float64(r.Intn(n + 3)))
+		if r.Chance(30) {
+			lv = dTok(float64(n))
+		}
+		switch r.Intn(6) {
+		case 0:
+			line += " put/" + kTok("length") + "/" + lv
+		case 1, 2:
+			line += " def/" + kTok("length") + "/" + lv + "/" + tri() + "/-/-"
+		case 3:
+			line += " def/" + kTok("length") + "/" + lv + "/" + tri() + "/" + tri() + "/" + tri()
+		case 4:
+			line += fmt.Sprintf(" put/%s/%s", kTok(strconv.Itoa(r.Intn(n+3))), genElem(r))
+		default:
+			m := []string{"push", "pop", "shift", "unshift", "splice", "reverse"}[r.Intn(6)]
+			args := ""
+			switch m {
+			case "push", "unshift":
+				args = genElem(r)
+			case "splice":
+				args = dTok(float64(r.Intn(n))) + "," + dTok(float64(r.Intn(3))) + []string{"", "," + genElem(r), "," + genElem(r) + "," + genElem(r)}[r.Intn(3)]
+			}
+			line += " call/" + m + "/" + args + "/"
+		}
+	}
+	c.Add(line, "lenscenario")
 }
